@@ -337,6 +337,14 @@ class _XX:
                 lines += ["xl tr " + trk, "xl pset %d" % nd]
             lines += ["xl tr double", "xl set %d" % n, "xl apply 0", "xl reset", "xl apply 0", "xl applybad", "xl poly"]
             out.append(("xxpset:%d" % k, lines))
+        # dimensions of different lengths: the shorter one ends inside a part of the longer one
+        for k in range(16 if tier == "quick" else 160):
+            n = r3.choice([2, 3, 4, 6, 9])
+            m = r3.choice([1, 1, 2, max(1, n - 1), n + 1, n + 3])
+            lines = ["xl new", "xl range 0 %s %s" % (rg[0], rg[1]), "xl range 1 %s %s" % (rg[0], rg[1]),
+                     "xl data 0 " + ",".join(r3.choice(syms) for _ in range(n)), "xl data 1 " + ",".join(r3.choice(syms) for _ in range(m)),
+                     "xl set %d" % n, "xl apply 0", "xl poly", "xl apply 1", "xl poly", "xl apply 0", "xl poly"]
+            out.append(("xxshort:%d" % k, lines))
         # two handles on one part array (a copied polyline): changing one leaves the parts of the other alone
         for k in range(10 if tier == "quick" else 80):
             n = r3.choice([3, 5, 8, 12])
